@@ -1,7 +1,7 @@
 (* Lemma toolbox for the flat-pattern matcher of Lib/Regex.v. *)
 From Coq Require Import Ascii String List Bool Arith NArith Lia.
 Import ListNotations.
-From AM Require Import Lib.Bytes Lib.Regex.
+From AM Require Import Lib.Bytes Lib.Utf8 Lib.Regex.
 
 (* a continuation that cannot match a given text, wherever and with whatever captures *)
 Definition fails (its : list item) (s : str) : Prop :=
@@ -33,6 +33,35 @@ Proof. reflexivity. Qed.
 
 Lemma m_nil pos s ops cs : m [] pos s ops cs = Some (pos, cs).
 Proof. reflexivity. Qed.
+
+(* one rune: one UTF-8 decoding step *)
+Lemma m_rune k r pos x s ops cs :
+  m (IRune k :: r) pos (x :: s) ops cs =
+  if in_cls k x then m r (pos + snd (decode_rune (x :: s))) (skipn (snd (decode_rune (x :: s))) (x :: s)) ops cs else None.
+Proof. reflexivity. Qed.
+
+Lemma decode_rune_ascii x s : (N_of_ascii x <? 128)%N = true -> decode_rune (x :: s) = (N_of_ascii x, 1).
+Proof. intros H. unfold decode_rune, nb. rewrite H. reflexivity. Qed.
+
+(* a decoding step of a non-empty text consumes 1..4 bytes, never more than there are *)
+Lemma decode_rune_width x s :
+  1 <= snd (decode_rune (x :: s)) /\ snd (decode_rune (x :: s)) <= 4 /\ snd (decode_rune (x :: s)) <= length (x :: s).
+Proof.
+  unfold decode_rune.
+  repeat (match goal with
+          | |- context [match ?l with [] => _ | _ :: _ => _ end] => destruct l
+          | |- context [if ?b then _ else _] => destruct b
+          | |- context [match ?o with Some _ => _ | None => _ end] => destruct o as [[[? ?] ?]|]
+          end); cbn [snd length]; lia.
+Qed.
+
+(* on an ASCII byte it behaves as IOne *)
+Lemma m_rune_ascii k r pos x s ops cs :
+  (N_of_ascii x <? 128)%N = true ->
+  m (IRune k :: r) pos (x :: s) ops cs = m (IOne k :: r) pos (x :: s) ops cs.
+Proof.
+  intros H. rewrite m_rune, m_one, (decode_rune_ascii x s H). cbn [snd skipn]. rewrite Nat.add_1_r. reflexivity.
+Qed.
 
 (* ---------- literals ---------- *)
 
@@ -262,7 +291,7 @@ Qed.
 Lemma m_cnt c its : forall p s ops cs res, m its p s ops cs = Some res -> litcount c its <= count c s.
 Proof.
   induction its as [|it r IH]; intros p s ops cs res H; cbn [litcount]; [lia|].
-  destruct it as [x|k|k|g|g| |]; cbn [m] in H.
+  destruct it as [x|k|k|g|g| | |k]; cbn [m] in H.
   - destruct s as [|y s]; [discriminate|]. destruct (Ascii.eqb_spec y x) as [->|Hne]; [|discriminate].
     specialize (IH _ _ _ _ _ H). cbn. lia.
   - destruct s as [|y s]; [discriminate|]. destruct (in_cls k y); [|discriminate].
@@ -273,6 +302,8 @@ Proof.
   - destruct (lookup_g g ops); [|discriminate]. exact (IH _ _ _ _ _ H).
   - destruct (Nat.eqb p 0); [|discriminate]. exact (IH _ _ _ _ _ H).
   - destruct s; [|discriminate]. exact (IH _ _ _ _ _ H).
+  - destruct s as [|y s]; [discriminate|]. destruct (in_cls k y); [|discriminate].
+    specialize (IH _ _ _ _ _ H). pose proof (count_skipn c (snd (decode_rune (y :: s))) (y :: s)). lia.
 Qed.
 
 Lemma fails_by_count c its s : count c s < litcount c its -> fails its s.
